@@ -108,7 +108,7 @@ package raft
 
 //@ pure EntSame(e *entry) bool = *e == old(*e)
 //@ func (*stateMachine).onApply params(fsm, t)
-//@   props C03 C04 C19
+//@   props C03 C04 C12 C19
 //@   nilable t.neHead
 //@   requires fsm.FSM != nil
 //@   requires [PA-ch.apply-view] ApplyLogWF(t.log) && t.log.gprev <= fsm.index && fsm.index <= t.log.glast
@@ -121,7 +121,7 @@ package raft
 //@   ensures [C19.applied-monotone] fsm.index >= old(fsm.index)
 //@   ensures [C03.apply-exactly-once] gupd == old(gupd) + (t.log.gnupd[old(Front(t)) - 1] - t.log.gnupd[old(fsm.index)]) + fqUpd
 // (C04: (fsm.index, fsm.term) becomes the label of the next snapshot, and the label term is what a leader sends as prevLogTerm when prevLogIndex is the snapshot index)
-//@   ensures [C03+C04.apply-term] (fsm.index == old(fsm.index) ==> fsm.term == old(fsm.term)) && (fsm.index > old(fsm.index) ==> (fsm.index < old(Front(t)) && fsm.term == t.log.geterm[fsm.index]) || TermFromChain(fsm))
+//@   ensures [C03+C04+C12.apply-term] (fsm.index == old(fsm.index) ==> fsm.term == old(fsm.term)) && (fsm.index > old(fsm.index) ==> (fsm.index < old(Front(t)) && fsm.term == t.log.geterm[fsm.index]) || TermFromChain(fsm))
 //@   ensures [C07.reply-once] forall(x, fq[x] ==> RepliedUpTo(x, nil))
 //@   loop 1 invariant fsm.index >= old(fsm.index) && fsm.index + 1 <= front
 //@   loop 1 invariant forall(x, !isfresh(x) ==> EntSame(x))
